@@ -681,3 +681,220 @@ def return_instruction(doc):
     if a._exit_code != 301 or b._exit_code != 302 or return_._exit_code is not None:
         bad.append(f'exit codes: return_(301)->{a._exit_code}, return_(302)->{b._exit_code}, return_->{return_._exit_code}')
     return '; '.join(bad)
+
+
+# ---------------------------------------------------------------------------------------------------- C17
+def _launcher_world():
+    """recording stand-ins for everything the launcher orchestrates (duck-typed; no plumpy process involved)"""
+    import plumpy
+    from plumpy import loaders, persistence
+    log = []
+
+    class Fut:
+        def __init__(self, proc):
+            self.proc = proc
+
+        def result(self):
+            log.append(('future.result', self.proc.pid))
+            if self.proc.fail:
+                raise RuntimeError('process failed')
+            return {'out': self.proc.pid}
+
+    class Proc:
+        counter = [100]
+
+        def __init__(self, *args, **kwargs):
+            Proc.counter[0] += 1
+            self.pid = Proc.counter[0]
+            self.fail = kwargs.get('fail', False)
+            self.done = False
+            log.append(('new', args, dict(kwargs)))
+
+        async def step_until_terminated(self):
+            log.append(('step', self.pid))
+            await asyncio.sleep(0)
+            self.done = True
+            log.append(('stepped', self.pid))
+
+        def future(self):
+            log.append(('future', self.pid, self.done))
+            return Fut(self)
+
+    class Bundle_:
+        def __init__(self, pid, tag):
+            self.key = (pid, tag)
+
+        def unbundle(self, ctx=None):
+            log.append(('unbundle', self.key, ctx))
+            p = Proc.__new__(Proc)
+            p.pid, p.fail, p.done = self.key[0], False, False
+            return p
+
+    class Pers(persistence.Persister):
+        def save_checkpoint(self, process, tag=None):
+            log.append(('save', process.pid, tag))
+
+        def load_checkpoint(self, pid, tag=None):
+            log.append(('load', pid, tag))
+            return Bundle_(pid, tag)
+
+        def get_checkpoints(self):
+            return []
+
+        def get_process_checkpoints(self, pid):
+            return []
+
+        def delete_checkpoint(self, pid, tag=None):
+            pass
+
+        def delete_process_checkpoints(self, pid):
+            pass
+
+    class Loader(loaders.ObjectLoader):
+        def load_object(self, identifier):
+            log.append(('load_object', identifier))
+            if identifier != 'the-proc':
+                raise ValueError(identifier)
+            return Proc
+
+        def identify_object(self, obj):
+            return 'the-proc'
+
+    return log, Proc, Pers, Loader
+
+
+def launcher_tasks(doc):
+    """every task x flag combination against stand-ins that log what the launcher does to them"""
+    import itertools
+    import kiwipy
+    from plumpy import persistence, process_comms
+
+    async def main():
+        bad = []
+        for persist, nowait, with_pers, args, kwargs, use_call in itertools.product(
+                [False, True], [False, True], [False, True], [None, (1, 2)], [None, {'k': 3}], [False, True]):
+            # ---- launch and create
+            for kind in ('launch', 'create'):
+                log, Proc, Pers, Loader = _launcher_world()
+                loader = Loader()
+                pers = Pers() if with_pers else None
+                launcher = process_comms.ProcessLauncher(persister=pers, loader=loader)
+                kw = {'process_class': 'the-proc', 'persist': persist}
+                if args is not None:
+                    kw['init_args'] = args
+                if kwargs is not None:
+                    kw['init_kwargs'] = kwargs
+                if kind == 'launch':
+                    kw['nowait'] = nowait
+                try:
+                    if use_call:
+                        reply = await launcher(None, {'task': kind, 'args': kw})
+                    elif kind == 'launch':
+                        reply = await launcher._launch(None, **kw)
+                    else:
+                        reply = await launcher._create(None, **kw)
+                    outcome = ('ok', reply)
+                except kiwipy.TaskRejected:
+                    outcome = ('rejected',)
+                at_return = list(log)
+                await asyncio.sleep(0.01)
+                pid = Proc.counter[0]
+                if persist and not with_pers:
+                    want_out, want_log = ('rejected',), []
+                else:
+                    want_log = [('load_object', 'the-proc'), ('new', tuple(args or ()), dict(kwargs or {}))]
+                    if persist:
+                        want_log.append(('save', pid, None))
+                    if kind == 'create':
+                        want_out = ('ok', pid)
+                    elif nowait:
+                        want_out = ('ok', pid)
+                    else:
+                        want_log += [('step', pid), ('stepped', pid), ('future', pid, True), ('future.result', pid)]
+                        want_out = ('ok', {'out': pid})
+                if outcome != want_out or at_return != want_log:
+                    bad.append(f'{kind}(persist={persist}, nowait={nowait}, persister={with_pers}, args={args}, kwargs={kwargs}, '
+                               f'via __call__={use_call}): outcome {outcome}, did {at_return}; expected {want_out}, {want_log}')
+                if kind == 'launch' and nowait and want_out != ('rejected',) and ('stepped', pid) not in log:
+                    bad.append(f'launch(nowait=True): the process was never run after the reply: {log}')
+                if kind == 'create' and any(e[0] == 'step' for e in log):
+                    bad.append(f'create ran the process: {log}')
+            if len(bad) > 3:
+                break
+        # ---- continue
+        for nowait, with_pers, tag, use_call, with_ctx in itertools.product([False, True], [False, True], [None, 'T'], [False, True],
+                                                                         [False, True]):
+            log, Proc, Pers, Loader = _launcher_world()
+            loader = Loader()
+            ctx = persistence.LoadSaveContext(marker=1) if with_ctx else None
+            launcher = process_comms.ProcessLauncher(persister=Pers() if with_pers else None, loader=loader, load_context=ctx)
+            kw = {'pid': 7, 'nowait': nowait}
+            if tag is not None:
+                kw['tag'] = tag
+            try:
+                if use_call:
+                    reply = await launcher(None, {'task': 'continue', 'args': kw})
+                else:
+                    reply = await launcher._continue(None, **kw)
+                outcome = ('ok', reply)
+            except kiwipy.TaskRejected:
+                outcome = ('rejected',)
+            at_return = [e if e[0] != 'unbundle' else ('unbundle', e[1], getattr(e[2], 'loader', None) is loader,
+                                                       (e[2] is not None and 'marker' in e[2]) == with_ctx) for e in log]
+            await asyncio.sleep(0.01)
+            if not with_pers:
+                want_out, want_log = ('rejected',), []
+            else:
+                want_log = [('load', 7, tag), ('unbundle', (7, tag), True, True)]
+                if nowait:
+                    want_out = ('ok', 7)
+                else:
+                    want_log += [('step', 7), ('stepped', 7), ('future', 7, True), ('future.result', 7)]
+                    want_out = ('ok', {'out': 7})
+            if outcome != want_out or at_return != want_log:
+                bad.append(f'continue(nowait={nowait}, persister={with_pers}, tag={tag}, via __call__={use_call}, context given={with_ctx}): '
+                           f'outcome {outcome}, did {at_return} (unbundle: key, context carries the configured loader, keeps the '
+                           f'given context values); expected {want_out}, {want_log}')
+        # ---- unknown task type
+        log, Proc, Pers, Loader = _launcher_world()
+        launcher = process_comms.ProcessLauncher(persister=Pers(), loader=Loader())
+        try:
+            await launcher(None, {'task': 'restart', 'args': {'pid': 1, 'nowait': True}})
+            bad.append('an unknown task type was accepted')
+        except kiwipy.TaskRejected:
+            if log:
+                bad.append(f'an unknown task type was rejected after doing {log}')
+        # ---- failure of the process is the reply
+        log, Proc, Pers, Loader = _launcher_world()
+        launcher = process_comms.ProcessLauncher(loader=Loader())
+        try:
+            reply = await launcher._launch(None, 'the-proc', False, False, init_kwargs={'fail': True})
+            bad.append(f'a failed process replied {reply!r} instead of its error')
+        except RuntimeError:
+            pass
+        return '; '.join(bad[:4]) or None
+
+    return _run(main())
+
+
+def launcher_bodies(doc):
+    """the body builders against the handlers' keyword signatures"""
+    import inspect
+    from plumpy import process_comms
+    log, Proc, Pers, Loader = _launcher_world()
+    loader = Loader()
+    bad = []
+    sig = lambda f: [p for p in inspect.signature(f).parameters][1:]
+    b = process_comms.create_launch_body(Proc, init_args=(1,), init_kwargs={'a': 2}, persist=True, loader=loader, nowait=False)
+    if b != {'task': 'launch', 'args': {'process_class': 'the-proc', 'persist': True, 'nowait': False, 'init_args': (1,),
+                                         'init_kwargs': {'a': 2}}}:
+        bad.append(f'launch body {b}')
+    if not set(b.get('args', {})) <= set(sig(process_comms.ProcessLauncher._launch)):
+        bad.append('launch body has keys _launch does not take')
+    b = process_comms.create_create_body(Proc, init_args=(1,), init_kwargs={'a': 2}, persist=True, loader=loader)
+    if b != {'task': 'create', 'args': {'process_class': 'the-proc', 'persist': True, 'init_args': (1,), 'init_kwargs': {'a': 2}}}:
+        bad.append(f'create body {b}')
+    b = process_comms.create_continue_body(5, tag='t', nowait=True)
+    if b != {'task': 'continue', 'args': {'pid': 5, 'nowait': True, 'tag': 't'}}:
+        bad.append(f'continue body {b}')
+    return '; '.join(bad) or None
